@@ -62,6 +62,8 @@ META = {
                     'styles x offsets, re-checked for cftime on every input at run time; inputs read differently are not asserted)',
                     'xarray time encoding (default integer dtype) is exact for values that are whole multiples of the period after the reference instant',
                     'netCDF4 attribute and raw value access; xarray.open_dataset CF decoding on reopen',
+                    '"denotes the same instant" is judged by the harness parser AND by cftime, the CF reader the function '
+                    'itself checks against (a one-digit-hour offset satisfies the stated form but cftime ignores it)',
                     'calendars standard / gregorian / proleptic_gregorian coincide after 1582'],
     'exhaustive': True,
 }
@@ -210,6 +212,15 @@ def units_block(obs, spec, off, style, combos, state):
         if parsed is not None:
             obs.expect(parsed == (period, truth), 'rewritten units denote the same reference instant and period',
                        lambda: {'units': units, 'result': result, 'got': parsed, 'want': (period, truth)}, mech=mech)
+        if isinstance(result, str):
+            # ... and for the CF reader of the trusted base too (cftime ignores e.g. a one-digit-hour offset)
+            try:
+                reread = utc_seconds(cftime.num2pydate(0, result, calendar or 'proleptic_gregorian'))
+            except Exception as exc:  # noqa: BLE001
+                reread = repr(exc)
+            obs.expect(reread == truth, 'rewritten units are read by cftime as the same reference instant',
+                       lambda: {'units': units, 'result': result, 'cftime reads': reread, 'want': truth},
+                       mech='output-read-differently-by-cftime' if mech == 'time-units-format' else mech)
 
 
 # ---------------------------------------------------------------------------------------------------------
@@ -390,6 +401,15 @@ def check_file(obs, model, path, fills, how, has_time, units_fixed, period, trut
             else:
                 obs.cls('roundtrip:time-variable-not-given-units-form-not-asserted')
                 parsed = contracts.parse_time_units(on_disk) if isinstance(on_disk, str) else None
+            if isinstance(on_disk, str) and units_fixed:
+                import cftime
+                try:
+                    reread = utc_seconds(cftime.num2pydate(0, on_disk, model.time['calendar']))
+                except Exception as exc:  # noqa: BLE001
+                    reread = repr(exc)
+                obs.expect(reread == truth, 'time units on disk are read by cftime as the requested reference instant',
+                           lambda: {'how': how, 'requested': model.time['units'], 'on disk': on_disk, 'cftime reads': reread,
+                                    'want': truth}, mech='output-read-differently-by-cftime')
             if parsed is not None:
                 obs.expect(parsed == (period, truth), 'time units on disk denote the requested reference instant and period',
                            lambda: {'how': how, 'requested': model.time['units'], 'on disk': on_disk, 'got': parsed,
